@@ -172,6 +172,7 @@ def run(prog, chk):
     chk.rule("R15.5", "every memo key is reached from the parameters through identity conversions only (the key is an injective image of the inputs)")
     lossless_key_rule(prog, chk, "R15.5")
     position_unit_rule(prog, chk)
+    line_base_rule(prog, chk)
 
 
 PREFIX_PRESERVING = ("strip_suffix", "trim_end", "trim_end_matches", "trim_right", "trim_right_matches", "strip_suffix_of", "as_str", "as_ref", "deref",
@@ -327,3 +328,98 @@ def position_unit_rule(prog, chk):
     chk.floor("R15.6", "arithmetic / comparison sites on SourcePosition.index", n, 5)
     if not any(v["rule"] == "R15.6" for v in chk.violations):
         chk.ok("R15.6", "positions-stay-in-characters", "%d sites: positions are combined with positions and constants only" % n, function="(workspace)")
+
+
+SH = "brush_core::shell::Shell::"
+NESTED_RUNNERS = (SH + "run_string", SH + "run_parsed_result")
+WRAPPERS = {SH + "run_string": "wrapper: parses, then run_parsed_result"}
+FRAME_PUSH_PREFIX = "brush_core::callstack::CallStack::push_"
+REBASERS = ("brush_core::callstack::CallStack::increment_current_line_offset", SH + "increment_interactive_line_offset")
+# nested runs whose text is not a delivery mode of a program (typed at / produced by the interactive session itself)
+SESSION_ONLY = {
+    "brush_interactive::interactive_shell::InteractiveShell::execute_line": "each complete input is run in the session frame; its offset is advanced by the lines consumed (increment_interactive_line_offset after the run)",
+    "brush_interactive::interactive_shell::InteractiveShell::run_pre_prompt_command": "PROMPT_COMMAND: run between inputs of an interactive session",
+    "brush_builtins::fc::FcCommand::do_execute": "fc re-executes a history entry of an interactive session",
+}
+
+
+def line_base_rule(prog, chk):
+    """R15.7: `$LINENO` is frame.start_line − 1 + position-in-parsed-text + frame.current_line_offset. A nested program text (a command
+    substitution, an eval string, a trap handler, a sourced file, the -c string) is parsed on its own, so its positions start at line 1
+    again. Whoever runs such a text must give it a line base: either a call-stack frame of its own (CallStack::push_*) or a rebase of the
+    current frame's line offset by the line of the command being executed. Without one the number depends on how much offset the frame
+    happened to have — zero for a script file or -c string, the lines consumed so far on standard input — so the same program prints
+    different `$LINENO` values depending on how it was delivered."""
+    from dataflow import flow_back
+    chk.rule("R15.7", "every run of a nested program text (run_string / run_parsed_result) is dominated by a frame push or by a rebase of the "
+                      "frame's line offset with the current command's line; reviewed interactive-session sites excepted")
+    cg = callgraph(prog)
+    pushers = set()
+    for b in prog.all_bodies({"brush_core"}):
+        fn = owner(b.name)
+        if any((t.best_callee() or t.callee or "").startswith(FRAME_PUSH_PREFIX) for _, t in b.calls()):
+            pushers.add(fn)
+    n = 0
+    for b, bb, t in prog.callers_of(*NESTED_RUNNERS, crates=SHIPPED):
+        fn = owner(b.name)
+        cal = t.best_callee() or t.callee or ""
+        if "::tests::" in fn:
+            continue
+        n += 1
+        c = cfg_of(b)
+        d = defs_of(b)
+        how = None
+        for xb, xt in b.calls():
+            xc = xt.best_callee() or xt.callee or ""
+            if xb == bb:
+                continue
+            if not c.dominates(xb, bb):
+                # `if let Some(line) = <current position> { rebase(line - 1) }`: nothing to rebase when the position is unknown
+                if not (xc in REBASERS and bb in c.reachable_from(xb)):
+                    continue
+                guarded = False
+                for w in range(len(b.blocks)):
+                    tw = b.blocks[w].term
+                    if tw.kind == "switch" and c.dominates(w, xb) and c.dominates(w, bb) and w != xb:
+                        if any(any(v.endswith("CallStack::current_frame") for v in f.via) for f in flow_back(b, d, tw.discr, all_args=False)):
+                            guarded = True
+                if not guarded:
+                    continue
+            if xc.startswith(FRAME_PUSH_PREFIX) or xc in pushers and xc not in NESTED_RUNNERS:
+                how = "frame: " + xc.rsplit("::", 1)[-1]
+            elif xc in REBASERS and len(xt.args) >= 2:
+                fl = flow_back(b, d, xt.args[1], all_args=True)
+                direct = any("current" in f.field_path() and "line" in f.field_path() for f in fl)
+                # `.current_frame().and_then(|frame| frame.current.as_ref().map(|pos| pos.line))`: the fields are read in closures
+                via_frame = any(any(v.endswith("CallStack::current_frame") for v in f.via) for f in fl)
+                if direct or (via_frame and _closures_read(prog, b, "current") and _closures_read(prog, b, "line")):
+                    how = how or "rebase: line offset raised by the current command's line"
+        if how:
+            chk.ok("R15.7", "line-base@%s" % fn.split(" as ")[0].lstrip("<").rsplit("::", 2)[-2 if fn.startswith("<") else -1], how, function=fn)
+        elif fn in WRAPPERS and cal in NESTED_RUNNERS:
+            chk.ok("R15.7", "wrapper@" + fn.rsplit("::", 1)[-1], WRAPPERS[fn], nontrivial=False, function=fn)
+        elif fn in SESSION_ONLY:
+            chk.ok("R15.7", "session-only@" + fn.rsplit("::", 1)[-1], SESSION_ONLY[fn], nontrivial=False, function=fn)
+        else:
+            chk.fail("R15.7", fn, "nested-text-without-line-base",
+                     "%s runs a separately parsed program text through %s (%s) in the current call frame without giving it a line base (no frame push, no rebase of the "
+                     "line offset): `$LINENO` inside it is 1-based in a script file or -c string but offset by the lines already consumed on standard input"
+                     % (fn, cal.rsplit("::", 1)[-1], b.loc(t.line)))
+    chk.floor("R15.7", "nested program runs", n, 7)
+
+
+def _closures_read(prog, b, field):
+    """does some closure nested in body b read a field called `field`?"""
+    pre = b.name + "::{closure"
+    for cb in prog.all_bodies({b.crate}):
+        if not cb.name.startswith(pre):
+            continue
+        for bl in cb.blocks:
+            for st in bl.stmts:
+                if st.kind != 'a':
+                    continue
+                places = [o.place for o in st.rv.ops if o.place is not None] + ([st.rv.place] if getattr(st.rv, "place", None) is not None else [])
+                for pl in places:
+                    if any(p[0] == 'f' and p[3] == field for p in pl.proj):
+                        return True
+    return False
